@@ -541,9 +541,9 @@ fn small(rng: &mut Rng, k: IKind) -> i128 {
 }
 
 fn any_value(rng: &mut Rng, k: IKind) -> i128 {
-    match rng.below(10) {
-        0..=3 => small(rng, k),
-        4..=6 => boundary(rng, k),
+    match rng.below(20) {
+        0..=15 => small(rng, k),
+        16..=17 => boundary(rng, k),
         _ => {
             let lo = k.lo_writable();
             let hi = k.hi_writable();
@@ -683,11 +683,11 @@ impl<'a> Gen<'a> {
             _ => self.rng.chance(1, 5),
         };
         if typed {
-            let v = if self.rng.chance(2, 3) { small(self.rng, k) } else { boundary(self.rng, k) };
+            let v = if self.rng.chance(5, 6) { small(self.rng, k) } else { boundary(self.rng, k) };
             return Expr::Lit(Some(k), v);
         }
         let cap = Self::max_untyped(k).min(k.hi());
-        let mut v = if self.rng.chance(3, 4) { self.rng.range(0, 12) as i128 } else { boundary(self.rng, k).abs() };
+        let mut v = if self.rng.chance(7, 8) { self.rng.range(0, 12) as i128 } else { boundary(self.rng, k).abs() };
         v = v.min(cap);
         let neg = k.signed() && self.rng.chance(1, 4);
         let e = Expr::Lit(None, v);
@@ -695,6 +695,33 @@ impl<'a> Gen<'a> {
             Expr::Un(UnOp::Neg, Box::new(e))
         } else {
             e
+        }
+    }
+
+    fn arith_op(&mut self) -> BinOp {
+        let r = self.rng.below(100);
+        match r {
+            0..=34 => BinOp::Add,
+            35..=62 => BinOp::Sub,
+            63..=74 => BinOp::Mul,
+            75..=84 => BinOp::Div,
+            85..=93 => BinOp::Mod,
+            _ => {
+                if self.profile == Profile::Wild {
+                    BinOp::Pow
+                } else {
+                    BinOp::Add
+                }
+            }
+        }
+    }
+
+    fn nonzero_divisor(&mut self, k: IKind) -> Expr {
+        let n = 1 + self.rng.below(9) as i128;
+        if self.rng.chance(1, 2) {
+            Expr::Lit(Some(k), n)
+        } else {
+            Expr::Lit(None, n)
         }
     }
 
@@ -731,7 +758,7 @@ impl<'a> Gen<'a> {
             if self.sab("lit-typed-range") && k != IKind::LInt && k != IKind::ULInt {
                 return Expr::Lit(Some(k), k.hi() + 1);
             }
-            let v = if self.rng.chance(1, 2) { small(self.rng, k) } else { boundary(self.rng, k) };
+            let v = if self.rng.chance(4, 5) { small(self.rng, k) } else { boundary(self.rng, k) };
             return Expr::Lit(Some(k), v);
         }
         match self.rng.below(10) {
@@ -739,13 +766,12 @@ impl<'a> Gen<'a> {
                 Expr::Un(UnOp::Neg, Box::new(self.gen_int(k, depth - 1)))
             }
             _ => {
-                let ops: &[BinOp] = if self.profile == Profile::Wild {
-                    &[BinOp::Add, BinOp::Sub, BinOp::Mul, BinOp::Div, BinOp::Mod, BinOp::Add, BinOp::Sub, BinOp::Pow]
-                } else {
-                    &[BinOp::Add, BinOp::Sub, BinOp::Mul, BinOp::Div, BinOp::Mod, BinOp::Add, BinOp::Sub]
-                };
-                let op = *self.rng.pick(ops);
+                let op = self.arith_op();
                 let main = self.gen_int(k, depth - 1);
+                if matches!(op, BinOp::Div | BinOp::Mod) && self.rng.chance(3, 4) {
+                    let d = self.nonzero_divisor(k);
+                    return Expr::Bin(op, Box::new(main), Box::new(d));
+                }
                 let other = self.gen_operand(k, depth - 1);
                 let (l, r) = if self.rng.chance(2, 3) { (main, other) } else { (other, main) };
                 Expr::Bin(op, Box::new(l), Box::new(r))
@@ -919,14 +945,18 @@ impl<'a> Gen<'a> {
             if !exact.is_empty() && self.rng.chance(3, 4) {
                 return Expr::Var(self.rng.pick(&exact).clone());
             }
-            let v = if self.rng.chance(1, 2) { small(self.rng, k) } else { boundary(self.rng, k) };
+            let v = if self.rng.chance(4, 5) { small(self.rng, k) } else { boundary(self.rng, k) };
             return Expr::Lit(Some(k), v);
         }
         if k.signed() && self.rng.chance(1, 10) {
             return Expr::Un(UnOp::Neg, Box::new(self.gen_strict_int(k, depth - 1)));
         }
-        let op = *self.rng.pick(&[BinOp::Add, BinOp::Sub, BinOp::Mul, BinOp::Div, BinOp::Mod, BinOp::Add, BinOp::Sub]);
+        let op = self.arith_op();
         let main = self.gen_strict_int(k, depth - 1);
+        if matches!(op, BinOp::Div | BinOp::Mod) && self.rng.chance(3, 4) {
+            let d = Expr::Lit(Some(k), 1 + self.rng.below(9) as i128);
+            return Expr::Bin(op, Box::new(main), Box::new(d));
+        }
         let other = self.gen_strict_operand(k, depth - 1);
         let (l, r) = if self.rng.chance(2, 3) { (main, other) } else { (other, main) };
         Expr::Bin(op, Box::new(l), Box::new(r))
@@ -937,7 +967,7 @@ impl<'a> Gen<'a> {
         match self.rng.below(10) {
             0..=2 if untyped_ok => {
                 let cap = k.hi().min(i32::MAX as i128);
-                let v = if self.rng.chance(3, 4) { self.rng.range(0, 12) as i128 } else { boundary(self.rng, k).abs().min(cap) };
+                let v = if self.rng.chance(7, 8) { self.rng.range(0, 12) as i128 } else { boundary(self.rng, k).abs().min(cap) };
                 if k.signed() && self.rng.chance(1, 4) {
                     Expr::Un(UnOp::Neg, Box::new(Expr::Lit(None, v)))
                 } else {
@@ -1572,12 +1602,221 @@ pub fn gen_inputs(rng: &mut Rng, prog: &Program, cycles: usize, rate: u64) -> Ve
     all
 }
 
+// ------------------------------------------------------------------------------------------
+// Witnesses of the recorded findings (replayed on every run; known_findings.json)
+// ------------------------------------------------------------------------------------------
+
+fn v(x: &str) -> Expr {
+    Expr::Var(x.into())
+}
+fn lit(n: i128) -> Expr {
+    if n < 0 {
+        Expr::Un(UnOp::Neg, Box::new(Expr::Lit(None, -n)))
+    } else {
+        Expr::Lit(None, n)
+    }
+}
+fn tl(k: IKind, n: i128) -> Expr {
+    Expr::Lit(Some(k), n)
+}
+fn bin(op: BinOp, l: Expr, r: Expr) -> Expr {
+    Expr::Bin(op, Box::new(l), Box::new(r))
+}
+fn neg(e: Expr) -> Expr {
+    Expr::Un(UnOp::Neg, Box::new(e))
+}
+fn asg(x: &str, e: Expr) -> Stmt {
+    Stmt::Assign(x.into(), e)
+}
+fn decl(name: &str, ty: Ty, init: i128) -> VarDecl {
+    VarDecl { name: name.into(), ty, init, typed_init: init.abs() > i32::MAX as i128, has_init: true }
+}
+
+pub const WITNESS_BASE: u64 = 1_000_000;
+
+/// (id, program) — every witness stays inside the model's grammar, so it also goes through the
+/// correspondence diff and the Lean oracle, which computes its signature.
+pub fn witnesses() -> Vec<(&'static str, Program)> {
+    use IKind::*;
+    let int = |k| Ty::Int(k);
+    vec![
+        (
+            "drift-int-literal",
+            Program {
+                decls: vec![decl("c", int(Int), 32766)],
+                body: vec![asg("c", bin(BinOp::Add, v("c"), lit(1)))],
+            },
+        ),
+        (
+            "mixed-sign-compare",
+            Program {
+                decls: vec![decl("i", int(Int), -1), decl("u", int(UInt), 3), decl("b", Ty::Bool, 0)],
+                body: vec![asg("b", bin(BinOp::Lt, v("i"), v("u")))],
+            },
+        ),
+        (
+            "mixed-sign-arith",
+            Program {
+                decls: vec![decl("u", int(UInt), 3)],
+                body: vec![asg("u", bin(BinOp::Add, v("u"), lit(-1)))],
+            },
+        ),
+        (
+            "neg-unsigned",
+            Program {
+                decls: vec![decl("u", int(UInt), 3), decl("w", int(UInt), 0)],
+                body: vec![asg("w", neg(v("u")))],
+            },
+        ),
+        (
+            "return-in-program",
+            Program {
+                decls: vec![decl("x", int(DInt), 0)],
+                body: vec![asg("x", lit(1)), Stmt::Return, asg("x", lit(2))],
+            },
+        ),
+        (
+            "pow-negative-exponent",
+            Program {
+                decls: vec![decl("x", int(DInt), 2), decl("y", int(DInt), -1)],
+                body: vec![asg("x", bin(BinOp::Pow, v("x"), v("y")))],
+            },
+        ),
+        (
+            "for-unsigned-negative-step",
+            Program {
+                decls: vec![decl("u", int(UInt), 0), decl("n", int(DInt), 0)],
+                body: vec![Stmt::For(
+                    "u".into(),
+                    lit(3),
+                    lit(0),
+                    Some(lit(-1)),
+                    vec![asg("n", bin(BinOp::Add, v("n"), lit(1)))],
+                )],
+            },
+        ),
+        (
+            "for-undeclared-control",
+            Program {
+                decls: vec![decl("n", int(DInt), 0)],
+                body: vec![Stmt::For(
+                    "zz".into(),
+                    lit(1),
+                    lit(3),
+                    None,
+                    vec![asg("n", bin(BinOp::Add, v("n"), lit(1)))],
+                )],
+            },
+        ),
+        (
+            "case-else-unchecked-store",
+            Program {
+                decls: vec![decl("d", int(DInt), 0)],
+                body: vec![Stmt::Case(
+                    v("d"),
+                    vec![(vec![Label::Single(LabLit { ty: None, v: 1 })], vec![asg("d", lit(2))])],
+                    vec![asg("d", Expr::BLit(true))],
+                )],
+            },
+        ),
+        (
+            "case-else-unchecked-condition",
+            Program {
+                decls: vec![decl("d", int(DInt), 0)],
+                body: vec![Stmt::Case(
+                    v("d"),
+                    vec![(vec![Label::Single(LabLit { ty: None, v: 1 })], vec![asg("d", lit(2))])],
+                    vec![Stmt::If(v("d"), vec![asg("d", lit(3))], vec![], vec![])],
+                )],
+            },
+        ),
+        (
+            "for-ulint-cast",
+            Program {
+                decls: vec![decl("a", int(ULInt), i64::MAX as i128), decl("i", int(ULInt), 0), decl("n", int(DInt), 0)],
+                body: vec![
+                    asg("a", bin(BinOp::Add, v("a"), tl(ULInt, 10))),
+                    Stmt::For(
+                        "i".into(),
+                        v("a"),
+                        bin(BinOp::Add, v("a"), tl(ULInt, 2)),
+                        None,
+                        vec![asg("n", bin(BinOp::Add, v("n"), lit(1)))],
+                    ),
+                ],
+            },
+        ),
+        (
+            "drift-widening-assignment",
+            Program {
+                decls: vec![decl("d", int(DInt), 0), decl("s", int(SInt), 3)],
+                body: vec![asg("d", v("s"))],
+            },
+        ),
+        (
+            "drift-literal-out-of-range",
+            Program {
+                decls: vec![decl("s", int(SInt), 0), decl("u", int(UInt), 0)],
+                body: vec![asg("s", lit(1000)), asg("u", lit(-5))],
+            },
+        ),
+    ]
+}
+
+/// Findings outside the model's grammar: (id, source, what is observed).
+pub fn raw_witnesses() -> Vec<(&'static str, &'static str)> {
+    vec![
+        (
+            "unary-plus-untyped",
+            "PROGRAM P\nVAR\n  b : BOOL; x : DINT;\nEND_VAR\nb := +1;\nIF b THEN x := 1; END_IF;\nEND_PROGRAM\n",
+        ),
+        (
+            "ampersand-untyped",
+            "PROGRAM P\nVAR\n  x : DINT;\nEND_VAR\nx := 1 & 2;\nEND_PROGRAM\n",
+        ),
+        (
+            "power-right-associative",
+            "PROGRAM P\nVAR\n  x : DINT;\nEND_VAR\nx := 2 ** 3 ** 2;\nEND_PROGRAM\n",
+        ),
+    ]
+}
+
+fn emit_raw(out: &mut Out, n: u64, id: &str, source: &str) {
+    out.line(format!("case {n}"));
+    out.line(format!("tag witness raw-{id}"));
+    out.line(format!("src {}", hex(source.as_bytes())));
+    let obs = match run_real(source, vec![Vec::new(), Vec::new()]) {
+        CaseResult::CompilePanic => "compile-panic".to_string(),
+        CaseResult::Rejected(m) => format!("reject {}", m.replace('\n', " | ")),
+        CaseResult::Ran(c) => c.iter().map(|(_, l)| l.clone()).collect::<Vec<_>>().join(" ; "),
+    };
+    out.line(format!("# rawobs {id} {obs}"));
+    out.line("end");
+}
+
 pub fn run_focus(args: &Args, focus: Focus) -> i32 {
     // keep panics of the code under test quiet on stderr (they are reported as `impl panic`)
     std::panic::set_hook(Box::new(|_| {}));
     let mut out = Out::new();
     let cycles = args.extra_usize("cycles", 3);
+    let ws = witnesses();
+    let raws = raw_witnesses();
+    let run_witness = |out: &mut Out, idx: usize| {
+        let n = WITNESS_BASE + idx as u64;
+        if idx < ws.len() {
+            let (id, prog) = &ws[idx];
+            let inputs = (0..cycles).map(|_| Vec::new()).collect();
+            emit_case(out, n, prog, &format!("witness wit-{id}"), inputs);
+        } else if idx - ws.len() < raws.len() {
+            let (id, src) = raws[idx - ws.len()];
+            emit_raw(out, n, id, src);
+        }
+    };
     for n in args.case_numbers() {
+        if n >= WITNESS_BASE {
+            run_witness(&mut out, (n - WITNESS_BASE) as usize);
+            continue;
+        }
         let mut rng = Rng::for_case(args.seed, n);
         let (profile, sabotage) = pick_profile(&mut rng, focus);
         let (prog, sabotaged) = Gen::new(&mut rng, profile, sabotage).gen_program();
@@ -1590,6 +1829,11 @@ pub fn run_focus(args: &Args, focus: Focus) -> i32 {
             out.count(&format!("sab-{what}"));
         }
         emit_case(&mut out, n, &prog, &tags, inputs);
+    }
+    if args.only.is_none() {
+        for idx in 0..ws.len() + raws.len() {
+            run_witness(&mut out, idx);
+        }
     }
     out.finish(&args.out);
     0
